@@ -4,7 +4,8 @@
    Inductive. *)
 From Coq Require Import ExtrOcamlBasic.
 From Coq Require Import List NArith ZArith.
-From TexModel Require Import Base Tables Chars Tokenizer Tree Reader.
+From TexModel Require Import Base Tables Chars Tokenizer Tree Reader CLO Buffer Args Views Edit.
 
 Extraction "model.ml"
-  categorize_char categorize tokens_of_string parse estr Tables.punctuation_commands.
+  categorize_char categorize tokens_of_string parse estr Tables.punctuation_commands
+  run_clo run_buf run_args run_view run_edit.
